@@ -40,8 +40,10 @@ func TestProp(t *testing.T) {
 		"upstream_hdr_mode_weak_chain_timeout":        20, "upstream_hdr_mode_weak_chain_flush": 20, "upstream_hdr_mode_weak_chain_none": 10,
 		"upstream_hdr_mode_dup_chain_timeout": 10, "upstream_hdr_mode_dup_chain_flush": 10,
 		"upstream_hdr_mode_mixed_chain_timeout": 5, "upstream_hdr_mode_mixed_chain_flush": 5,
-		"interim_responses": 5,
-		"auth_responses":    200,
+		"interim_responses": 20, "final_responses_after_upstream_1xx_chain_timeout": 10, "final_responses_after_upstream_1xx_chain_flush": 10,
+		"final_responses_after_upstream_1xx_chain_none": 5,
+		"upstream_hdr_mode_trailer_chain_timeout":       10, "upstream_hdr_mode_trailer_chain_flush": 10,
+		"auth_responses": 200,
 	}
 	for k, v := range authFloors {
 		floors[k] = v
@@ -63,7 +65,7 @@ func runProxyWorkload(rep *vh.Report, env vh.Env) {
 		rn := &runner{rep: rep, stream: "c18-proxy"}
 		only, skip := env.Only(rn.stream)
 		nStacks := env.Pick(8, 40)
-		per := env.Pick(290, 1150)
+		per := env.Pick(280, 1150)
 		nSlow := env.Pick(5, 10)
 		for si := 0; si < nStacks && !skip; si++ {
 			lo := si * per
@@ -84,7 +86,7 @@ func runProxyWorkload(rep *vh.Report, env vh.Env) {
 		rn := &runner{rep: rep, stream: "c18-direct"}
 		only, skip := env.Only(rn.stream)
 		nStacks := env.Pick(4, 8)
-		per := env.Pick(90, 700)
+		per := env.Pick(130, 700)
 		for di := 0; di < nStacks && !skip; di++ {
 			lo := di * per
 			if only >= 0 && (only < lo || only >= lo+per) {
